@@ -2,7 +2,7 @@
 from engine.facts import AnalysisBroken, atomic_op, atomic_ops, has_acquire, has_release
 from engine.rules import (calls, calls_named, every_path_passes, last_member, is_call_to, Defs, resolve_cond_source, oname,
                           edges_where, dominated_by_edges, member_accesses, root_of, assignments, value_root, atomics_on,
-                          elem_fn_uid)
+                          elem_fn_uid, Summaries, access_kind)
 
 UNITS = ['drivers/containers.cpp']
 D1N = 'tbb::detail::d1::'
@@ -45,6 +45,7 @@ def run(facts, rep):
     d3_skiplist(facts, rep)
     d4_dispose_once(facts, rep)
     d5_bucket_count_pow2(facts, rep)
+    d6_functors(facts, rep)
 
 
 def d1_list(facts, rep):
@@ -428,3 +429,94 @@ def d5_bucket_count_pow2(facts, rep):
     if n < 6:
         raise AnalysisBroken('writes of my_bucket_count not found (%d)' % n)
     rep.floor('D5', 6, 'bucket count writers')
+
+
+def d6_functors(facts, rep):
+    """The position of every element is computed with the container's own functor object: the skip list is searched with
+    my_compare, the split-ordered list is keyed by my_hash_compare(key).  Functors may carry state (direction flag, collation,
+    seed), so whenever a container takes elements over from another one:
+      (a) ordered containers re-insert element by element (internal_copy -> insert): in a function that replaces my_compare, no
+          element is linked (internal_insert_node reachable) before the replacement - otherwise the elements are ordered by the
+          OLD comparator while find/insert/iteration afterwards use the new one (keys not found, inserted twice, wrong order);
+      (b) unordered containers copy the nodes together with their order keys (internal_copy / internal_move read order_key of
+          the source): every function that does so has taken my_hash_compare from the same source on every path to that call
+          (constructor initialiser or assignment) - otherwise the copied order keys do not belong to the hash function in use."""
+    summ = Summaries(facts, max_depth=10)
+    S = sl(facts)
+    U = ub(facts)
+
+    def links(fn, pos, e):
+        return isinstance(e, int) and fn.nodes[e].get('k') == 'call' and ((fn.callee(e) or {}).get('n') == 'internal_insert_node')
+    na = 0
+    for fn in sorted((f for f in facts.fns.values() if f.p.startswith(S) and not f.d.get('lparent')), key=lambda f: f.q):
+        ws = [(pos, s) for pos, s, n, kind in member_accesses(fn, ('my_compare',))
+              if fn.n(fn.strip(n.get('base', -1))).get('k') == 'this' and (kind == 'write' or kind == 'call:operator=')]
+        if not ws:
+            continue
+        early = []
+        for b, i, e in fn.iter_elems():
+            if not isinstance(e, int) or fn.nodes[e].get('k') not in ('call', 'ctor'):
+                continue
+            if not summ.elem_may(fn, (b, i), e, 'links-element', links):
+                continue
+            if any(fn.can_reach((b, i), w[0]) for w in ws):
+                early.append('%s (line %s)' % ((fn.callee(e) or {}).get('n'), fn.nodes[e].get('ln')))
+        na += 1
+        rep.ob('D6', 'K4', fn, 'no element is linked before the comparator object is replaced', not early,
+               'elements are inserted through %s and only then my_compare is replaced: with a comparator that carries state the list is '
+               'ordered by the old comparator while every later search uses the new one - keys are not found, are inserted a second time, '
+               'iteration is not in comparator order' % ', '.join(early), key_extra='cmp-first')
+    nb = 0
+    ufns = sorted((f for f in facts.fns.values() if f.p.startswith(U) and not f.d.get('lparent')), key=lambda f: f.q)
+
+    def from_param(fn, root):
+        return root is not None and root >= 0 and any(fn.nodes[x].get('k') == 'var' and 'param' in fn.nodes[x] for x in fn.subtree(root))
+
+    def takes(fn):
+        """positions where my_hash_compare of *this receives a value computed from a parameter (the source container)"""
+        inits = set((b, i) for b, i, e in fn.iter_elems() if isinstance(e, dict) and e.get('i') == 'my_hash_compare' and from_param(fn, e.get('s')))
+        ws = set()
+        for pos, s_, l, r in assignments(fn):
+            ln_ = fn.n(fn.strip(l))
+            if ln_.get('k') == 'member' and ln_.get('n') == 'my_hash_compare' and fn.n(fn.strip(ln_.get('base', -1))).get('k') == 'this' \
+                    and from_param(fn, r):
+                ws.add(pos)
+        return inits | ws
+    # helpers that copy without touching the functor and are called from inside the class (internal_move_assign,
+    # internal_move_construct_with_allocator, ... - by primary name: tag-dispatched overloads have callers in other
+    # instantiations only) pass the obligation on to their callers
+    copiers = set([U + 'internal_copy', U + 'internal_move'])
+    changed = True
+    while changed:
+        changed = False
+        for fn in ufns:
+            if fn.p in copiers or takes(fn) or fn.kind != 'method' or fn.p.split('::')[-1].startswith('operator'):
+                continue          # constructors and assignment operators are where the functor is taken: never lifted
+            inl = [g for g in (facts.fns.get(n_.get('fn')) for _, _, n_ in fn.stmt_elems(('lambda',))) if g is not None]
+            if any((d or {}).get('p') in copiers for f_ in [fn] + inl for pos, s, node, d in calls(f_)) and \
+                    any(c[0].p.startswith(U) for c in facts.callers_p(fn.p)):
+                copiers.add(fn.p)
+                changed = True
+    for fn in ufns:
+        if fn.p in copiers:
+            continue
+        cps = [(pos, s, node, d) for pos, s, node, d in calls(fn) if (d or {}).get('p') in copiers]
+        # a lambda handed to try_call runs where it is written: its copier calls are sites of the enclosing function
+        for pos, s, node in fn.stmt_elems(('lambda',)):
+            g = facts.fns.get(node.get('fn'))
+            if g is not None:
+                for p2, s2, n2, d2 in calls(g):
+                    if (d2 or {}).get('p') in copiers:
+                        cps.append((pos, s, n2, d2))
+        if not cps:
+            continue
+        took = takes(fn)
+        for pos, s, node, d in cps:
+            nb += 1
+            ok, wit = every_path_passes(fn, 'entry', lambda p_, e: p_ in took, end=pos)
+            rep.ob('D6', 'K1', fn, 'the hash/equality functor is taken from the source before its nodes (with their order keys) are copied', ok,
+                   'order keys of the source are copied but my_hash_compare stays as it was (%s): with a hasher that carries state the '
+                   'copied keys are not found and can be inserted twice' % wit, ln=node.get('ln'), key_extra='hash|%s' % d.get('n'))
+    if na < 2 or nb < 4:
+        raise AnalysisBroken('functor take-over sites: %d comparator replacements, %d structural copies (expected >= 2 / >= 4)' % (na, nb))
+    rep.floor('D6', 5, 'functor take-over sites')
